@@ -191,7 +191,30 @@ func init() {
 		"fmt.Sprintf": func(fr *frame, a []value) value { return fr.i.sprintf(a[0], a[1].([]value)) },
 		"fmt.Sprint":  func(fr *frame, a []value) value { return fr.i.sprint(a[0].([]value)) },
 		"fmt.Errorf":  func(fr *frame, a []value) value { return fr.i.errorf(a[0], a[1].([]value)) },
+		// Fprintf / Fprint into a *strings.Builder (the only writer the analysed code formats into): the formatted
+		// text is appended to the builder's side table; any other writer fails closed
+		"fmt.Fprintf": func(fr *frame, a []value) value {
+			w, ok := a[0].(iface)
+			if !ok || w.t == nil || w.t.String() != "*strings.Builder" {
+				panic(engineError{"fmt.Fprintf into a writer other than *strings.Builder"})
+			}
+			s := fr.i.sprintf(a[1], a[2].([]value))
+			b := fr.i.builder(w.v)
+			if sv, ok := s.(sym); ok {
+				*b = append(*b, piece{s: fr.i.nm(sv.kind, sv.t), sym: true})
+				return tuple{symLen(sv), iface{}}
+			}
+			*b = append(*b, piece{s: s.(string)})
+			return tuple{len(s.(string)), iface{}}
+		},
 		"errors.Is":   func(fr *frame, a []value) value { return fr.i.errorsIs(a[0].(iface), a[1].(iface)) },
+		// reflection is not modelled: TypeOf yields the nil reflect.Type. The analyzers only store it in
+		// analysis.Analyzer.ResultType (read by drivers, which are not executed); any use of the value is a
+		// nil-interface method call, i.e. a panic that the native replay will not confirm (fails closed).
+		"reflect.TypeOf": func(fr *frame, a []value) value { return iface{} },
+		// the process environment is empty
+		"os.Getenv":    func(fr *frame, a []value) value { return "" },
+		"os.LookupEnv": func(fr *frame, a []value) value { return tuple{"", false} },
 
 		"(*sync.Mutex).Lock":      nop,
 		"(*sync.Mutex).Unlock":    nop,
